@@ -36,6 +36,8 @@ def parseNats (s : String) : Option (List Nat) :=
   if s == "-" then some [] else (s.splitOn ",").mapM (·.toNat?)
 
 def lookahead : Bool := true
+/-- `utils.MaxSegmentMtu` (pinned by `Props.C11.gen_constants`). -/
+def capMtu : Nat := 1048576
 
 /-- All ways to insert one event into a list. -/
 def insertions {α} (x : α) : List α → List (List α)
@@ -54,7 +56,7 @@ def handle (line : String) : String :=
       match segmentsFail d m segs with
       | some cls => s!"specfail {cls} mtu={m} len={d.length} impl={showSegs segs}"
       | none =>
-        let ms := segments lookahead m d
+        let ms := segmentsCapped lookahead capMtu m d
         if ms == segs then "ok" else s!"diff seg model={showSegs ms} impl={showSegs segs}"
     | _, _, _ => "skip parse"
   | ["xfer", m, d, segs, acks, deliv, res] =>
@@ -73,7 +75,7 @@ def handle (line : String) : String :=
           s!"specfail delivered-differs mtu={m} len={d.length}"
         else
           -- correspondence with the model
-          let ms := segments lookahead m d
+          let ms := segmentsCapped lookahead capMtu m d
           let (macks, mdel) := receive {} ms
           let macks' := macks.filterMap (fun | .ack n => some n | .err => none)
           if ms != segs then s!"diff xfer-segs model={showSegs ms}"
